@@ -4449,8 +4449,11 @@ EmitModVSib:
       if (ASMJIT_UNLIKELY(mod == 0xFF))
         goto InvalidAddress;
 
+      // [BP] (rm == 6) has no displacement-less form, `mod=00 rm=110` means [DISP16].
+      bool rm_is_bp = (mod == 0x06);
+
       mod += op_reg << 3;
-      if (rel_offset == 0 && mod != 0x06) {
+      if (rel_offset == 0 && !rm_is_bp) {
         writer.emit8(mod);
       }
       else if (Support::is_int_n<8>(rel_offset)) {
